@@ -12,6 +12,9 @@ import MsVerif.Driver.OpsPlan
 import MsVerif.Driver.OpsValidate
 import MsVerif.Driver.OpsPsbt
 import MsVerif.Driver.OpsCompile
+import MsVerif.Driver.OpsTypeExec
+import MsVerif.Driver.OpsDisplay
+import MsVerif.Driver.OpsDecode
 
 namespace MsVerif.Driver
 
@@ -71,7 +74,16 @@ def step (st : DState) (line : String) : DState × String :=
                             | none =>
                               match opsCompile st.tables kind op args with
                               | some r => (st, r)
-                              | none => (st, "bad-op")
+                              | none =>
+                                match opsTypeExec st.tables kind op args with
+                                | some r => (st, r)
+                                | none =>
+                                  match opsDisplay st.tables kind op args with
+                                  | some r => (st, r)
+                                  | none =>
+                                    match opsDecode st.tables kind op args with
+                                    | some r => (st, r)
+                                    | none => (st, "bad-op")
   | _ => (st, "bad-op")
 
 end MsVerif.Driver
